@@ -200,9 +200,45 @@ def run(ctx):
         ctx.mismatch("remove_atom_mapping vs Model/Aam.remove_atom_mapping", meta[i][0], meta[i][1], "model disagrees")
     ctx.extra["cases_evaluated_in_coq"] = len(exprs)
     ctx.sample({"smiles": gen[0], "output": ram(gen[0])}); ctx.sample({"smiles": rx[0][:120], "output": ram(rx[0])[:120]})
-    # ---- pipeline outputs carry no atom-map numbers
+    # ---- pipeline outputs carry no atom-map numbers: corpus rows, and reactions in which only SOME atoms carry a map
+    # (only the ions, only charged atoms, only a stereo centre, only one side)
     import pipe
-    for b in pipe.corpus_run(ctx):
+    partial = ["[Na+:1].[Cl-:2]>>[Na+:1].[Cl-:2]", "CC(=O)[O-:3].[Na+:1]>>CC(=O)[O-:3].[Na+:1]", "C[N+:1](C)(C)C.[Cl-:2]>>C[N+:1](C)(C)C.[Cl-:2]",
+               "F[C@:1](Cl)(Br)I>>F[C@:1](Cl)(Br)I", "CC(=O)O.[OH-:9]>>CC(=O)[O-:9].O", "CCBr.[OH-:1]>>CCO.[Br-:2]", "[NH4+:5].[Cl-:6]>>N.Cl",
+               "CCBr.O>>CC[OH:7]", "[CH3:1]Br.O>>CO", "C[S@+:2]([O-:3])C>>C[S@+:2]([O-:3])C", "[13CH3:4]Br.O>>[13CH3:4]O", "c1cc[nH:8]c1>>c1cc[nH:8]c1"]
+    base = ["CCBr.O>>CCO", "CC(=O)O.[OH-]>>CC(=O)[O-].O", "CC(=O)Cl.OC>>CC(=O)OC", "C[N+](C)(C)C.[Cl-]>>CN(C)C.CCl", "CC(=O)[O-].[Na+].Cl>>CC(=O)O.[Na+].[Cl-]"]
+    for r in base:
+        for _ in range(2 if ctx.quick() else 8):
+            sides = []
+            for side in r.split(">>"):
+                m = Chem.MolFromSmiles(side)
+                pick = rng.choice(["charged", "hetero", "one", "none"])
+                k = 0
+                for a in m.GetAtoms():
+                    k += 1
+                    if (pick == "charged" and a.GetFormalCharge() != 0) or (pick == "hetero" and a.GetAtomicNum() not in (6,)) or (pick == "one" and k == 1):
+                        a.SetAtomMapNum(k)
+                sides.append(Chem.MolToSmiles(m))
+            partial.append(">>".join(sides))
+    pb = pipe.run_batches([partial[i:i + 8] for i in range(0, len(partial), 8)])
+    ctx.count("P", "partially_mapped_pipeline_inputs", len(partial))
+    strip_exprs, strip_meta = [], []
+    for b in pb:
+        for k, v in b["tables"]["strip"]:
+            try:
+                strip_exprs.append("String.eqb (remove_atom_mapping %s) %s" % (cstr(k), cstr(v))); strip_meta.append((k, v))
+            except (TypeError, ValueError):
+                pass
+        if len(b["rows"]) != len(b["inputs"]):
+            continue
+        for inp, r in zip(b["inputs"], b["rows"]):
+            ok = same_molecules(inp, r["input_reaction"] or "")
+            if ok is False:
+                ctx.fail(classify(inp), {"smiles": inp}, {"input_reaction": r["input_reaction"]})
+    bad2, err2 = eval_cases("c15strip", HDR, "", strip_exprs, ctx.work, shard=400)
+    for i in bad2:
+        ctx.mismatch("preprocess' atom-map removal (recorded) vs Model/Aam.remove_atom_mapping", strip_meta[i][0], strip_meta[i][1], "model disagrees")
+    for b in pipe.corpus_run(ctx) + pb:
         for r in b["rows"]:
             ctx.evaluations += 1
             for col in ("reaction", "input_reaction"):
